@@ -55,7 +55,7 @@ func (c06) Mandatory(tier string) []string {
 }
 
 var (
-	c06ABI = []string{"any", "gnu", "musl", "uclibc"}
+	c06ABI = []string{"any", "gnu", "musl", "uclibc", "gnueabihf", "gnux32"}
 	c06OS  = []string{"any", "linux", "kfreebsd", "hurd"}
 	c06CPU = []string{"any", "amd64", "arm64", "i386"}
 )
